@@ -111,6 +111,12 @@ def long_case(draw):
     """Hundreds of key lifetimes on ONE re-used slot, a branch that speaks in the first lifetime(s) and then stays silent for
     hundreds of them (per-slot join state must not come back after 255 / 256 / 512 ... resets)."""
     w = draw(st.sampled_from([1, 2]))
+    if draw(st.integers(0, 3)) == 0:
+        # a wide sliding window under two interleaved groups: the first key index a tee inside it sees is far from 0
+        items = [((j * 3) % 7) - 2 for j in range(draw(st.sampled_from([60, 90])))]
+        branches = [draw(st.sampled_from(LONG_BRANCHES[1:4])) for _ in range(2)]
+        return {'tin': 'int', 'branches': branches, 'join': draw(st.sampled_from(['zip', 'combine_latest'])),
+                'layers': [['group_by', 2], ['roll', draw(st.sampled_from([33, 40])), 1]], 'items': items}
     layer = draw(st.sampled_from([['roll', w, w], ['roll', w, w], ['split', 'mod', 2]]))
     n = draw(st.sampled_from([530, 700, 1100]))
     loud = draw(st.integers(1, 3))
@@ -212,6 +218,10 @@ def describe_case(draw):
     qs = [draw(st.lists(st.sampled_from([0.1, 0.25, 0.28, 0.29, 0.5, 0.75, 0.9, 0.99, 0.999, 0.995, 1, 1.0, 0]), min_size=1, max_size=3,
                         unique_by=lambda v: int(v * 100)))
           for _ in range(draw(st.integers(1, 3)))]
+    if draw(st.booleans()):
+        # a second describe() whose quantiles differ from the first one's but truncate to the same field names
+        twin = {0.99: 0.999, 0.999: 0.995, 0.995: 0.99, 0.28: 0.29, 0.29: 0.28, 1: 1.0, 1.0: 1}
+        qs.append([twin.get(q, q) for q in qs[0]])
     xs = draw(st.lists(st.integers(-50, 200), min_size=4, max_size=40))
     return {'quantiles': qs, 'xs': xs, 'keyed': draw(st.booleans())}
 
